@@ -970,6 +970,25 @@ Section ChainSound.
       eapply link_ext; [reflexivity | reflexivity | apply H2; lia | exact Hlk].
   Qed.
 
+  Lemma ret_enabled ns G' j k n :
+    nodes_ok ns -> stacks_ok ns ((j, k) :: G') -> k <> KExt -> nth_error ns j = Some n ->
+    nenabled n MRet = true.
+  Proof.
+    intros [Hsig Hnd] Hst Hk Hn.
+    destruct (ret_prep Hst Hn) as (_ & _ & cl & rest & Hcs & Hrt).
+    destruct (Hnd j n Hn) as [Hr _].
+    destruct (@node_facts ns j n Hsig Hn) as (Hsafe_n & _ & _ & _ & _ & Hlate & _).
+    destruct (Hsafe_n _ Hr) as [_ Hd].
+    unfold nenabled, enabled. rewrite Hd. cbn [negb andb].
+    pose proof (reach_cstack Hr) as Hc. change (ms (ncfg n)) with (nms n) in Hc.
+    rewrite Hcs in Hc. destruct (stack (ncfg n)) as [|[f c0] st']; [discriminate|].
+    cbn in Hc. inversion Hc; subst c0.
+    destruct cl as [i0|i0 u0|s0 d0]; try reflexivity.
+    destruct k; [congruence| |].
+    - destruct (route_up _ _ _ Hrt) as [_ Hj0]. rewrite (Hlate Hj0). reflexivity.
+    - destruct (route_dn _ _ _ Hrt) as (d & Hc0 & _). discriminate.
+  Qed.
+
   Lemma net_step_inv N mv : Inv N -> net_enabled N mv = true -> Inv (net_step N mv).
   Proof.
     destruct N as [ns G pd]. intros (Hnodes & Hst & Hwf & Hpend & Hlk) He.
@@ -1017,20 +1036,9 @@ Section ChainSound.
       { destruct Hwf as (Hko & _). destruct k; cbn in Hko; lia. }
       destruct (nth_error ns j) as [n|] eqn:Hn.
       2: { apply nth_error_None in Hn. lia. }
-      destruct (ret_prep Hst Hn) as (Hs1 & Hs2 & cl & rest & Hcs & Hrt).
-      destruct Hnodes as [Hsig Hnd]. destruct (Hnd j n Hn) as [Hr _].
-      destruct (@node_facts ns j n Hsig Hn) as (Hsafe_n & _ & _ & _ & _ & Hlate & _).
-      destruct (Hsafe_n _ Hr) as [_ Hd].
-      assert (Hen : nenabled n MRet = true).
-      { unfold nenabled, enabled. rewrite Hd. cbn [negb andb].
-        pose proof (reach_cstack Hr) as Hc. change (ms (ncfg n)) with (nms n) in Hc.
-        rewrite Hcs in Hc. destruct (stack (ncfg n)) as [|[f c0] st']; [discriminate|].
-        cbn in Hc. inversion Hc; subst c0.
-        destruct cl as [i0|i0 u0|s0 d0]; try reflexivity.
-        destruct k; [congruence| |].
-        - destruct (route_up _ _ _ Hrt) as [_ Hj0]. rewrite (Hlate Hj0). reflexivity.
-        - destruct (route_dn _ _ _ Hrt) as (d & Hc0 & _). discriminate. }
-      apply after_step_inv; [split; assumption | exact Hn | exact Hen | exact Hwf' | exact Hrun' | exact Hs1 | exact Hs2 |].
+      destruct (ret_prep Hst Hn) as (Hs1 & Hs2 & _).
+      pose proof (ret_enabled Hnodes Hst Hk Hn) as Hen.
+      apply after_step_inv; [exact Hnodes | exact Hn | exact Hen | exact Hwf' | exact Hrun' | exact Hs1 | exact Hs2 |].
       apply (links_core_move (pd := PRet j)); [exact Hlk | reflexivity|].
       intros n0 Hn0. assert (n0 = n) by congruence. subst n0. cbn. auto.
   Qed.
@@ -1080,3 +1088,194 @@ Section ChainSound.
 End ChainSound.
 
 Print Assumptions chain_sound.
+
+(** ** The wires carry data unchanged: what a node receives on port 0 is what its upstream
+       neighbour sent to its sink, in order (one datum may be in flight) *)
+
+Section OneNodeTrace.
+  Variable p : mparams.
+  Variable o : op.
+  Variable g : mstate -> input -> bool.
+
+  Definition move_event (m : move) : event := match m with MIn i => EIn i | MRet => ERet end.
+
+  Lemma step_trace_shape (c : cfg o) m :
+    enabled p g c m = true ->
+    exists os fin, trace (step p c m) = trace c ++ move_event m :: map EObs os ++ [fin] /\
+                   hd_error (rtrace (step p c m)) = Some fin /\ (forall i, fin <> EIn i).
+  Proof.
+    intros He. pose proof (enabled_live _ _ _ _ He) as Hlive.
+    destruct m as [i|].
+    - pose proof (enabled_deliverable _ _ _ _ He) as Hdel.
+      destruct (handle o i (cst c)) as [[s' os] a] eqn:Hh.
+      exists os, (act_event o a). split; [|split].
+      + exact (step_in_trace p c i Hlive Hdel Hh).
+      + rewrite (step_in_rtrace p c i Hlive Hdel Hh). reflexivity.
+      + intros j. destruct a; discriminate.
+    - destruct (enabled_ret_stack _ _ _ He) as (k & cl & rest & Hst).
+      destruct (resume o k (cst c)) as [[s' os] a] eqn:Hh.
+      exists os, (act_event o a). split; [|split].
+      + exact (step_ret_trace p c Hlive Hst Hh).
+      + rewrite (step_ret_rtrace p c Hlive Hst Hh). reflexivity.
+      + intros j. destruct a; discriminate.
+  Qed.
+End OneNodeTrace.
+
+Lemma data_out_obs s os : data_out s (map EObs os) = [].
+Proof. induction os as [|ob os IH]; cbn; auto. Qed.
+Lemma data_in_obs i os : data_in i (map EObs os) = [].
+Proof. induction os as [|ob os IH]; cbn; auto. Qed.
+
+Definition out_of (fin : event) : list val :=
+  match fin with ECall (CDn 0 (DD v)) => [v] | _ => [] end.
+Definition in_of (m : move) : list val :=
+  match m with MIn (IDn 0 (DD v)) => [v] | _ => [] end.
+
+Lemma data_out_ext tr m os fin :
+  data_out 0 (tr ++ move_event m :: map EObs os ++ [fin]) = data_out 0 tr ++ out_of fin.
+Proof.
+  rewrite data_out_app. f_equal.
+  change (move_event m :: map EObs os ++ [fin]) with ([move_event m] ++ map EObs os ++ [fin]).
+  rewrite !data_out_app, data_out_obs.
+  assert (E : data_out 0 [move_event m] = []) by (destruct m as [[]|]; reflexivity).
+  rewrite E. cbn [app].
+  destruct fin as [| [ | |[|s] [|v| |]] | | | |]; reflexivity.
+Qed.
+
+Lemma data_in_ext tr m os fin :
+  (forall i, fin <> EIn i) ->
+  data_in 0 (tr ++ move_event m :: map EObs os ++ [fin]) = data_in 0 tr ++ in_of m.
+Proof.
+  intros Hfin.
+  rewrite data_in_app. f_equal.
+  change (move_event m :: map EObs os ++ [fin]) with ([move_event m] ++ map EObs os ++ [fin]).
+  rewrite !data_in_app, data_in_obs.
+  assert (E : data_in 0 [fin] = []).
+  { destruct fin as [j| | | | |]; try reflexivity. exfalso. exact (Hfin j eq_refl). }
+  rewrite E, !app_nil_r.
+  destruct m as [[s a|s u|[|i] [|v| |]|s]|]; reflexivity.
+Qed.
+
+Definition inflight (pd : pending) (t : nat) : list val :=
+  match pd with
+  | PTo k (IDn 0 (DD v)) => if k =? t then [v] else []
+  | _ => []
+  end.
+
+Definition ntrace (n : node) : list event := trace (ncfg n).
+
+Definition wire_ok (ns : list node) (pd : pending) : Prop :=
+  forall i U D, nth_error ns i = Some U -> nth_error ns (S i) = Some D ->
+    data_out 0 (ntrace U) = data_in 0 (ntrace D) ++ inflight pd (S i).
+
+Lemma after_step_wire (ns : list node) G1 pd_old pd0 x n m :
+  nth_error ns x = Some n ->
+  nenabled n m = true ->
+  wire_ok ns pd_old ->
+  (forall t, t <> x -> inflight pd_old t = []) ->
+  (0 < x -> inflight pd_old x = in_of m) ->
+  let N' := after_step (mk_net ns G1 pd0) x (nstep n m) in
+  wire_ok (nodes N') (pend N').
+Proof.
+  intros Hn He Hw Hoth Hx N'.
+  destruct (step_trace_shape _ _ _ _ He) as (os & fin & Htr & Hl & Hfin).
+  set (n' := nstep n m) in *.
+  change (trace (step (npar n) (ncfg n) m)) with (ntrace n') in Htr.
+  change (trace (ncfg n)) with (ntrace n) in Htr.
+  change (hd_error (rtrace (step (npar n) (ncfg n) m))) with (nlast n') in Hl.
+  assert (Hout : data_out 0 (ntrace n') = data_out 0 (ntrace n) ++ out_of fin)
+    by (rewrite Htr; apply data_out_ext).
+  assert (Hin : data_in 0 (ntrace n') = data_in 0 (ntrace n) ++ in_of m)
+    by (rewrite Htr; apply data_in_ext; exact Hfin).
+  set (ns' := set_nth x n' ns).
+  assert (Hx' : nth_error ns' x = Some n') by (eapply nth_set_same; eauto).
+  assert (Ho' : forall j, j <> x -> nth_error ns' j = nth_error ns j)
+    by (intros j Hj; apply nth_set_other; congruence).
+  (* the new pending transfer and its in-flight datum *)
+  assert (Hnodes : nodes N' = ns').
+  { unfold N', after_step. cbn [nodes gst]. fold n'. fold ns'. rewrite Hl.
+    destruct fin as [|cl| | | |]; try reflexivity.
+    - destruct (route (length ns) x cl); reflexivity.
+    - destruct G1 as [|[j [| |]] G1']; reflexivity. }
+  assert (Hinf : forall t, inflight (pend N') t =
+                           if (t =? S x) && (S x <? length ns) then out_of fin else []).
+  { intros t. unfold N', after_step. cbn [nodes gst]. fold n'. rewrite Hl.
+    destruct fin as [|cl| | | |]; cbn [pend inflight out_of];
+      try (destruct ((t =? S x) && (S x <? length ns)); reflexivity).
+    - destruct cl as [[|j]|[|j] u|[|s] d]; unfold route;
+        try (destruct (0 <? x)); cbn [pend inflight out_of xlate];
+        try (destruct ((t =? S x) && (S x <? length ns)); reflexivity).
+      all: destruct (S x <? length ns) eqn:E; cbn [pend inflight xlate];
+        [ rewrite andb_true_r, (Nat.eqb_sym t (S x)); destruct d as [|v| |]; cbn [out_of];
+          try (destruct (S x =? t); reflexivity); reflexivity
+        | rewrite andb_false_r; reflexivity ].
+    - destruct G1 as [|[j [| |]] G1']; cbn [pend inflight];
+        destruct ((t =? S x) && (S x <? length ns)); reflexivity. }
+  rewrite Hnodes. intros i U' D' HU HD. rewrite Hinf.
+  destruct (Nat.eq_dec i x) as [->|Hix].
+  - (* the upstream side of the pair stepped *)
+    rewrite Hx' in HU. inversion HU; subst U'. rewrite Ho' in HD by lia.
+    rewrite Nat.eqb_refl. apply nth_error_lt in HD as Hlt. apply Nat.ltb_lt in Hlt.
+    rewrite Hlt. cbn [andb]. rewrite Hout, (Hw x n D' Hn HD), (Hoth (S x)) by lia.
+    now rewrite app_nil_r.
+  - destruct (Nat.eq_dec (S i) x) as [Hsx|Hsx].
+    + (* the downstream side stepped *)
+      rewrite Hsx, Hx' in HD. inversion HD; subst D'. rewrite Ho' in HU by exact Hix.
+      replace (S i =? S x) with false by (symmetry; apply Nat.eqb_neq; lia). cbn [andb].
+      rewrite app_nil_r, Hin. specialize (Hw i U' n HU). rewrite Hsx in Hw.
+      rewrite (Hw Hn), Hx by lia. reflexivity.
+    + rewrite Ho' in HU, HD by assumption.
+      replace (S i =? S x) with false by (symmetry; apply Nat.eqb_neq; lia). cbn [andb].
+      rewrite (Hw i U' D' HU HD), (Hoth (S i)) by exact Hsx. reflexivity.
+Qed.
+
+Section ChainWire.
+  Variable sigs : list (op * mparams * (mstate -> input -> bool)).
+  Hypothesis Hsafe : forall s, In s sigs -> safe_sig s.
+  Hypothesis Hreg : forall i s, nth_error sigs i = Some s -> regime_ok i s.
+
+  Lemma net_step_wire N mv :
+    Inv sigs N -> net_enabled N mv = true ->
+    wire_ok (nodes N) (pend N) -> wire_ok (nodes (net_step N mv)) (pend (net_step N mv)).
+  Proof.
+    destruct N as [ns G pd]. intros (Hnodes & Hst & Hwf & Hpend & Hlk) He Hw.
+    cbn [nodes gst pend] in *. unfold net_enabled, net_step in *. cbn [nodes gst pend] in *.
+    destruct mv as [x m|]; destruct pd as [|t inp|j]; try discriminate.
+    - destruct (nth_error ns x) as [n|] eqn:Hn; [|discriminate].
+      apply andb_prop in He. destruct He as [Hen He].
+      destruct m as [inp|].
+      + apply andb_prop in He. destruct He as [Hext _].
+        apply (@after_step_wire ns G PIdle PIdle x n (MIn inp)); auto.
+        intros Hx0. cbn. destruct inp as [s a|s u|[|i] [|v| |]|s]; try reflexivity.
+        unfold ext_input_ok in Hext. apply Nat.eqb_eq in Hext. lia.
+      + apply (@after_step_wire ns (tl G) PIdle PIdle x n MRet); auto.
+    - destruct Hpend as [_ (n & Hn & Hen)]. rewrite Hn.
+      apply (@after_step_wire ns G (PTo t inp) (PTo t inp) t n (MIn inp)); auto.
+      + intros t' Ht. cbn. destruct inp as [s a|s u|[|i] [|v| |]|s]; try reflexivity.
+        destruct (Nat.eqb_spec t t'); [congruence|reflexivity].
+      + intros _. cbn. destruct inp as [s a|s u|[|i] [|v| |]|s]; try reflexivity.
+        now rewrite Nat.eqb_refl.
+    - destruct Hpend as (k & Hhd & Hk).
+      destruct G as [|e G']; [discriminate|]. cbn in Hhd. inversion Hhd; subst e.
+      assert (Hj : j < length ns).
+      { destruct Hwf as (Hko & _). destruct k; cbn in Hko; lia. }
+      destruct (nth_error ns j) as [n|] eqn:Hn.
+      2: { apply nth_error_None in Hn. lia. }
+      pose proof (ret_enabled Hsafe Hreg Hnodes Hst Hk Hn) as Hen.
+      apply (@after_step_wire ns G' (PRet j) PIdle j n MRet); auto.
+  Qed.
+
+  Theorem chain_wire ns N :
+    map nsig ns = sigs -> (forall n, In n ns -> ninit n) ->
+    net_reach (net0 ns) N -> wire_ok (nodes N) (pend N).
+  Proof.
+    intros Hsig Hinit Hr. induction Hr as [|N mv Hr IH He].
+    - intros i U D HU HD. unfold net0 in *. cbn [nodes pend inflight] in *.
+      unfold ntrace. rewrite (Hinit U (nth_error_In _ _ HU)), (Hinit D (nth_error_In _ _ HD)).
+      reflexivity.
+    - apply net_step_wire; [|exact He|exact IH].
+      exact (chain_inv Hsafe Hreg Hsig Hinit Hr).
+  Qed.
+End ChainWire.
+
+Print Assumptions chain_wire.
